@@ -604,6 +604,28 @@ func definitelyNonNilErr(v ssa.Value, at *ssa.BasicBlock, depth int) bool {
 		switch calleeName(&x.Call) {
 		case "fmt.Errorf", "errors.New", "errors.Join":
 			return true
+		case "iface:context.Context.Err":
+			// ctx.Err() after <-ctx.Done() fired for the same context (select arm or plain receive): non-nil by
+			// the contract of context.Context
+			if at != nil && x.Call.IsInvoke() {
+				want := "sel:<-call:context.Context.Done(" + desc(x.Call.Value) + ")"
+				for b := at; b != nil; b = b.Idom() {
+					id := b.Idom()
+					if id == nil {
+						break
+					}
+					iff, ok := id.Instrs[len(id.Instrs)-1].(*ssa.If)
+					if !ok {
+						continue
+					}
+					tf, _ := condFacts(iff.Cond)
+					for _, f := range tf {
+						if f == want && id.Succs[0] == b && len(b.Preds) == 1 {
+							return true
+						}
+					}
+				}
+			}
 		}
 	case *ssa.Phi:
 		for _, e := range x.Edges {
